@@ -115,7 +115,7 @@ func newStringAdditionalProperties(r schema.RuleASTNode) *AdditionalProperties {
 		return nil
 	}
 
-	if r.Value[0] == '@' {
+	if len(r.Value) != 0 && r.Value[0] == '@' {
 		return &AdditionalProperties{mode: additionalPropertiesUserType, userTypeName: r.Value}
 	}
 
